@@ -32,6 +32,7 @@ verus! {
 
 //%include spec/matrix.rs
 //%include spec/matrix_sem.rs
+//%include spec/matrix_arms.rs
 //%include prelude/mxspecs.rs
 
 //%item optimiser.rs matrix pub fn matrix
